@@ -17,14 +17,9 @@ FRAGS = ["[a-a]", "[b-a]", "[!b-a]", "[a-b-]", "[\\]a]", "[a\\-b]", "*", "?", "[
          "+(a|b)", "!(a)", "!(a|ab)", "!(*)", "@(a|!(b))", "+(?)", "*(a|)", "\\*", "\\[", "\\a", "a", "b", "ab", "A", "é", "\n", ".", "]", "-"]
 
 CLAUSES = {
-    "bracket_leading_rbracket": "a ] right after [ , [! or [^ is not accepted as a bracket member, so []...] is read as literals",
     "extglob_negation_not_complement": "!(...) is encoded as (?:(?!alts).*|(?>alts).+?|) which is not the complement of the alternatives",
     "nocasematch_folds_named_class": "with nocasematch a named class such as [[:upper:]] is case-folded by the regex engine; bash does not fold classes",
-    "bracket_backslash_alnum": "backslash + letter/digit inside a bracket expression is passed to the regex crate verbatim (\\a, \\b, \\d ... or a compile error)",
-    "bracket_regex_set_operator": "--, && or ~~ inside a bracket expression are set operators of the regex crate, not members",
-    "cond_extglob_always_on": "[[ s == p ]] must treat p as an extglob pattern even when shopt extglob is off (bash forces it inside [[ ]]); brush follows the option",
     "named_class_ascii_only": "named classes such as [[:alpha:]] are ASCII-only in the regex crate; bash in a UTF-8 locale classifies multi-byte characters too",
-    "bracket_caret_after_dropped_range": "when a reversed range is dropped from a bracket expression and the next member is ^, the emitted class starts with ^ and is read as a negation (or [^] fails to compile)",
     "regex_engine_repeated_plus_group": "the regex engine answers (X)+ Y (X)+ (from +(X)…+(X): same X twice, Y able to match the empty string, e.g. * or ?(a)) as if one occurrence of X sufficed",
 }
 
@@ -169,7 +164,11 @@ def stage_M(ctx):
             ctx.violation("driver gave no report", {"req": l, "model": m}, kind="correspondence")
             continue
         if rep["impl"] == "U":
-            ctx.bucket("M_unmodelled_class_text")
+            # the emitted class text has an unescaped regex set operator or starts with ^ : repaired in pattern.rs, must not come back
+            if nv < 10:
+                nv += 1
+                ctx.violation("emitted bracket text has a regex set operator or a leading ^ (repaired defect is back?)",
+                              {"req": l, "pattern": unesc(f[3]), "brush": b[:40], "model": m}, kind="correspondence")
             continue
         ctx.bucket("M_pairs_ext%s_nocase%s" % (f[1], f[2]), npairs)
         if b != rep["impl"] and nv < 10:
@@ -243,7 +242,7 @@ def classify(ctx, cfg, p, s, b, o, rep, i, where, st):
         truth = None
     else:
         truth = o
-    defect_feature = any(x in feats for x in "BAOKX") or (nc and "C" in feats)
+    defect_feature = ("B" in feats) or (nc and "C" in feats)
     if m != "U" and b != m:
         if truth is not None and b == truth and defect_feature:
             st["fixed"] += 1
@@ -260,20 +259,10 @@ def classify(ctx, cfg, p, s, b, o, rep, i, where, st):
     if truth is None or b == truth:
         return
     # the property fails on brush here, and the model predicted it (or does not cover it): which defect class?
-    sc = rep.get("spec_cfg")
-    # (line anchoring under (?ms) was repaired in compile_regex: a subject with a newline is no excuse any more)
-    if sc is not None and (sc == "-" or sc[i] != sp):
-        cl = "cond_extglob_always_on"
-    elif "K" in feats:
-        cl = "bracket_leading_rbracket"
-    elif "B" in feats:
+    # (repaired and therefore no excuse any more: line anchoring under (?ms); a leading ] in a bracket expression;
+    #  backslash+alphanumeric, -- && ~~ and a leading ^ in the emitted class text; extglob off inside [[ ]])
+    if "B" in feats:
         cl = "extglob_negation_not_complement"
-    elif "A" in feats:
-        cl = "bracket_backslash_alnum"
-    elif "O" in feats:
-        cl = "bracket_regex_set_operator"
-    elif "X" in feats:
-        cl = "bracket_caret_after_dropped_range"
     elif nc and "C" in feats:
         cl = "nocasematch_folds_named_class"
     else:
@@ -324,14 +313,12 @@ def stage_E(ctx):
         mo = lib.run_drv_parallel(["C08 M %d %d %s %s" % (ext, nc, esc(p), " ".join(esc(s) for s in ss)) for p, ss in allp])
         # nocasematch does not apply to ${v##p} (neither in bash nor in brush)
         mo3 = mo if not nc else lib.run_drv_parallel(["C08 M %d 0 %s %s" % (ext, esc(p), " ".join(esc(s) for s in ss)) for p, ss in allp])
-        # inside [[ ]] bash always matches with extglob on
+        # inside [[ ]] the pattern is always matched with extglob on (bash, and brush since the repair of extendedtests.rs)
         mo2 = mo if ext else lib.run_drv_parallel(["C08 M 1 %d %s %s" % (nc, esc(p), " ".join(esc(s) for s in ss)) for p, ss in allp])
         for (p, ss), b, o, m, m3, m2 in zip(allp, bo, oo, mo, mo3, mo2):
             rep = parse_report(m)
             rep3 = parse_report(m3)
             rep2 = parse_report(m2)
-            if rep and rep2 and not ext:
-                rep2 = dict(rep, spec=rep2["spec"], spec_cfg=rep["spec"])
             if b == "":      # brush gave up on the whole function call (an error inside the loop): every answer is an error
                 b = " ".join(["E" * len(ss)] * 3)
             bf, of = b.split(" "), o.split(" ")
@@ -349,7 +336,7 @@ def stage_E(ctx):
                     if where == "${v##p}":
                         classify(ctx, (ext, 0), p, s, bx[i], ox[i], rep3, i, where, st)
                     elif where == "[[ == ]]":
-                        classify(ctx, cfg, p, s, bx[i], ox[i], rep2, i, where, st)
+                        classify(ctx, (1, nc), p, s, bx[i], ox[i], rep2, i, where, st)
                     else:
                         classify(ctx, cfg, p, s, bx[i], ox[i], rep, i, where, st)
             ctx.distinct.add(hash((cfg, p)))
@@ -528,9 +515,7 @@ def judge_glob(ctx, cfg, where, p, b, o, m, st):
     names_in = lambda l: set(l)
     diff = names_in(b) ^ names_in(o)
     cl = None
-    if "[]" in p or "[!]" in p or "[^]" in p:
-        cl = "bracket_leading_rbracket"
-    elif "!(" in p and e:
+    if "!(" in p and e:
         cl = "extglob_negation_not_complement"
     if cl:
         ctx.known_or_violation(cl, "pathname expansion differs from bash: " + CLAUSES[cl], case)
